@@ -50,7 +50,15 @@ func (r *yieldRewriter) rewriteRanges(block *ast.BlockStmt) {
 			case *types.Array:
 				// typing workaround for abstract generic array iter
 				// type can't be infered from array, so we wrap it with slice
-				typeInfered := &ast.SliceExpr{X: n.X}
+				arr := n.X
+				if tv, ok := r.pkg.TypeInfo().Types[n.X]; ok && !tv.Addressable() {
+					// e.g. range f(), array value is not addressable, can't be sliced
+					// store it in a temporary firstly
+					tmp := X.Ident(r.gensym(cstArrVar))
+					c.InsertBefore(X.Define(tmp, n.X))
+					arr = tmp
+				}
+				typeInfered := &ast.SliceExpr{X: arr}
 				do(cstNewSliceIter, typeInfered)
 			case *types.Slice:
 				do(cstNewSliceIter, n.X)
